@@ -22,6 +22,8 @@ structure St where
   main : Slot := {}
   alt : Slot := {}
   snap : Disk := emptyDisk
+  /-- capacity of the read-handle LRU (`verif_set_limits`) -/
+  cap : Nat := 256
 
 def hexVal (c : Char) : Option Nat :=
   if c.isDigit then some (c.toNat - 48)
@@ -72,6 +74,14 @@ def layoutLine (d : Disk) : String :=
   let ents := d.idx.map fun e => s!"{e.fid}:{e.off}"
   s!"idx={if ents.isEmpty then "-" else ",".intercalate ents}+{d.tail}"
 
+def cacheLine (t : Top) : String :=
+  s!"cache={if t.h.cache.isEmpty then "-" else ",".intercalate (t.h.cache.map toString)}"
+
+/-- the harness's oracle / dump retrieves heights `1 .. number-1` in order -/
+def sweep (cap : Nat) (t : Top) : Top :=
+  (List.range (t.number - 1)).foldl (fun t i =>
+    ⟨withCache t.h (retrieveCache cap t.h t.d (i + 1)), t.d, t.tip⟩) t
+
 def parseCut (il fid fl : String) : Option (Nat × Nat × Option Nat) :=
   match parseNat? il, parseNat? fid, (if fl = "rm" then some none else (parseNat? fl).map some) with
   | some a, some b, some c => some (a, b, c)
@@ -82,7 +92,7 @@ def slotStep (s : St) (alt : Bool) (ts : List String) : St × String :=
   let sl := getSlot s alt
   match ts with
   | ["open"] =>
-    match openTop c sl.disk with
+    match openTopL s.cap c sl.disk with
     | some t => (setSlot s alt { disk := t.d, top := some t }, s!"ok {t.number} {tipStr t}")
     | none =>
       -- the files layer may already have repaired the directory
@@ -105,7 +115,7 @@ def slotStep (s : St) (alt : Bool) (ts : List String) : St × String :=
       match stopped with
       | none => (s, "bad-op")
       | some stopped =>
-        let (t', r) := freeze c t thr get stopped
+        let (t', r) := freezeL s.cap c t thr get stopped
         let st := setSlot s alt { disk := t'.d, top := some t' }
         match r with
         | .ok frozen =>
@@ -130,7 +140,7 @@ def slotStep (s : St) (alt : Bool) (ts : List String) : St × String :=
       match stopped with
       | none => (s, "bad-op")
       | some stopped =>
-        let (t', r) := freezeFrom c t n0 thr get stopped
+        let (t', r) := freezeFromL s.cap c t n0 thr get stopped
         let st := setSlot s alt { disk := t'.d, top := some t' }
         match r with
         | .ok frozen =>
@@ -141,7 +151,7 @@ def slotStep (s : St) (alt : Bool) (ts : List String) : St × String :=
   | ["truncatestale", n0, i] =>
     match sl.top, parseNat? n0, parseNat? i with
     | some t, some n0, some i =>
-      match truncateFrom c t n0 i with
+      match truncateFromL s.cap c t n0 i with
       | some t' => (setSlot s alt { disk := t'.d, top := some t' }, s!"ok {t'.number} {tipStr t'}")
       | none => (s, "err")
     | _, _, _ => (s, "bad-op")
@@ -161,12 +171,12 @@ def slotStep (s : St) (alt : Bool) (ts : List String) : St × String :=
           let l := frozen.map fun (h, n, tx) => s!"{h}:{n}:{tx}"
           s!"ok:{if l.isEmpty then "-" else ",".intercalate l}"
         | .err => "err"
-      let (t1, rA) := freeze c t thrA (getOf startA idsA) noStop
+      let (t1, rA) := freezeL s.cap c t thrA (getOf startA idsA) noStop
       let doT (x : Top) : Top × String :=
-        match truncateFrom c x n0T k with
+        match truncateFromL s.cap c x n0T k with
         | some y => (y, "ok")
         | none => (x, "err")
-      let doB (x : Top) : Top × FreezeOut := freezeFrom c x n0B thrB (getOf startB idsB) noStop
+      let doB (x : Top) : Top × FreezeOut := freezeFromL s.cap c x n0B thrB (getOf startB idsB) noStop
       let (t3, aT, rB) :=
         if order = "TB" then
           let (t2, aT) := doT t1
@@ -182,23 +192,37 @@ def slotStep (s : St) (alt : Bool) (ts : List String) : St × String :=
   | ["retrieve", i] =>
     match sl.top, parseNat? i with
     | some t, some i =>
-      (s, match retrieveTop c t i with
+      let (t', r) := retrieveTopL s.cap c t i
+      (setSlot s alt { disk := t'.d, top := some t' },
+        match r with
           | .some raw => (match c.dec raw with | some b => s!"some {b.hash}" | none => "some ?")
           | .none => "none"
           | .err => "err")
     | _, _ => (s, "bad-op")
+  | ["cache"] =>
+    match sl.top with
+    | some t => (s, cacheLine t)
+    | none => (s, "bad-op")
+  | ["sweep"] =>
+    match sl.top with
+    | some t =>
+      let t' := sweep s.cap t
+      (setSlot s alt { disk := t'.d, top := some t' }, cacheLine t')
+    | none => (s, "bad-op")
   | ["truncate", i] =>
     match sl.top, parseNat? i with
     | some t, some i =>
-      match truncateTop c t i with
+      match truncateTopL s.cap c t i with
       | some t' => (setSlot s alt { disk := t'.d, top := some t' }, s!"ok {t'.number} {tipStr t'}")
       | none =>
-        let r := truncate t.h t.d i
+        let r := truncateL s.cap t.h t.d i
         (setSlot s alt { disk := r.2, top := none }, "err")
     | _, _ => (s, "bad-op")
   | ["dump"] =>
     match sl.top with
-    | some t => (s, s!"{contentLine c t} {layoutLine t.d}")
+    | some t =>
+      let t' := sweep s.cap t
+      (setSlot s alt { disk := t'.d, top := some t' }, s!"{contentLine c t} {layoutLine t.d}")
     | none => (s, "bad-op")
   | _ => (s, "bad-op")
 
@@ -208,6 +232,10 @@ def step (s : St) (ts : List String) : St × String :=
     match parseNat? m with
     | some m => ({ max := m }, "ok")
     | none => (s, "bad-op")
+  | ["cfg", m, cap] =>
+    match parseNat? m, parseNat? cap with
+    | some m, some cap => ({ max := m, cap := cap }, "ok")
+    | _, _ => (s, "bad-op")
   | ["blk", id, parent, number, ntx, hx] =>
     match parseNat? id, parseNat? parent, parseNat? number, parseNat? ntx, unhex hx with
     | some id, some p, some n, some tx, some bytes =>
@@ -230,7 +258,11 @@ def step (s : St) (ts : List String) : St × String :=
     match s.main.top, s.alt.top with
     | some m, some a =>
       let c := cfgOf s
-      (s, if contentLine c m == contentLine c a then "same" else "diff")
+      -- the harness dumps the alt slot, then the main one: both read every height
+      let m' := sweep s.cap m
+      let a' := sweep s.cap a
+      ({ s with main := { disk := m'.d, top := some m' }, alt := { disk := a'.d, top := some a' } },
+        if contentLine c m == contentLine c a then "same" else "diff")
     | _, _ => (s, "bad-op")
   | "alt" :: rest => slotStep s true rest
   | _ => slotStep s false ts
